@@ -96,6 +96,28 @@ def Env.equiv (s t : Env) : Prop := ∀ x, s.lookup x = t.lookup x
 
 /-! ## Patterns -/
 
+/-- the expressions allowed as `?:` fallbacks: closed literals, names of the enclosing scope, and `name + k`
+(FallbackPattern's `fallback.Eval(ctx, local)`: evaluated in the scope that ENCLOSES the whole pattern) -/
+inductive FExpr where
+  | lit (l : Lit)
+  | var (x : String)
+  | add (x : String) (k : Int)
+  deriving Inhabited
+
+def FExpr.eval (ρ : Env) : FExpr → Option V
+  | .lit l => some l.den
+  | .var x => ρ.lookup x
+  | .add x k =>
+    match ρ.lookup x with
+    | some (.num n) => some (.num (n + k))
+    | _ => none
+
+/-- the value of a `?:` fallback in the enclosing scope (none: no fallback, or it cannot be evaluated) -/
+def fbVal (ρ : Env) (fb : Option FExpr) : Option V :=
+  match fb with
+  | some d => d.eval ρ
+  | none => none
+
 /-- the expressions allowed inside `( … )`: closed literals and names of the enclosing scope -/
 inductive PExpr where
   | lit (l : Lit)
@@ -111,9 +133,9 @@ inductive Pat where
   | name (x : String)                               -- IDENT, `_` included (rel.IdentPattern)
   | exprs (es : List PExpr)                         -- `(e₁, …)` or a string (rel.ExprsPattern)
   | rest (x : String)                               -- `...x`, `...` is `rest ""` (rel.ExtraElementPattern)
-  | arr (items : List (Pat × Option Lit))           -- `[p, ?p:d, ...t]`
-  | tup (attrs : List (String × Pat × Option Lit))  -- `(a: p, b?: p:d, ...t)`; for `...t` the name is ""
-  | dict (ents : List (Lit × Pat × Option Lit))     -- `{k: p, k?: p:d, ...t}`; for `...t` the key is unused
+  | arr (items : List (Pat × Option FExpr))           -- `[p, ?p:d, ...t]`
+  | tup (attrs : List (String × Pat × Option FExpr))  -- `(a: p, b?: p:d, ...t)`; for `...t` the name is ""
+  | dict (ents : List (Lit × Pat × Option FExpr))     -- `{k: p, k?: p:d, ...t}`; for `...t` the key is unused
   | set (elts : List Pat)                           -- `{p, q, ...t}`
   deriving Inhabited
 
@@ -137,13 +159,13 @@ def names : Pat → List String
   | .tup attrs => namesAttrs attrs
   | .dict ents => namesEnts ents
   | .set elts => namesElts elts
-def namesItems : List (Pat × Option Lit) → List String
+def namesItems : List (Pat × Option FExpr) → List String
   | [] => []
   | (p, _) :: r => names p ++ namesItems r
-def namesAttrs : List (String × Pat × Option Lit) → List String
+def namesAttrs : List (String × Pat × Option FExpr) → List String
   | [] => []
   | (_, p, _) :: r => names p ++ namesAttrs r
-def namesEnts : List (Lit × Pat × Option Lit) → List String
+def namesEnts : List (Lit × Pat × Option FExpr) → List String
   | [] => []
   | (_, p, _) :: r => names p ++ namesEnts r
 def namesElts : List Pat → List String
@@ -152,20 +174,20 @@ def namesElts : List Pat → List String
 end
 
 /-- attribute names / keys written in a tuple / dict pattern (the `...` entries excluded) -/
-def attrNames : List (String × Pat × Option Lit) → List String
+def attrNames : List (String × Pat × Option FExpr) → List String
   | [] => []
   | (n, p, _) :: r => if p.isRest then attrNames r else n :: attrNames r
-def entKeys : List (Lit × Pat × Option Lit) → List V
+def entKeys : List (Lit × Pat × Option FExpr) → List V
   | [] => []
   | (k, p, _) :: r => if p.isRest then entKeys r else k.den :: entKeys r
 /-- the identifiers of the `...` parts of a container pattern -/
-def restsItems : List (Pat × Option Lit) → List String
+def restsItems : List (Pat × Option FExpr) → List String
   | [] => []
   | (p, _) :: r => (match restName p with | some t => [t] | none => []) ++ restsItems r
-def restsAttrs : List (String × Pat × Option Lit) → List String
+def restsAttrs : List (String × Pat × Option FExpr) → List String
   | [] => []
   | (_, p, _) :: r => (match restName p with | some t => [t] | none => []) ++ restsAttrs r
-def restsEnts : List (Lit × Pat × Option Lit) → List String
+def restsEnts : List (Lit × Pat × Option FExpr) → List String
   | [] => []
   | (_, p, _) :: r => (match restName p with | some t => [t] | none => []) ++ restsEnts r
 def restsElts : List Pat → List String
@@ -173,10 +195,10 @@ def restsElts : List Pat → List String
   | p :: r => (match restName p with | some t => [t] | none => []) ++ restsElts r
 
 /-- the value a keyed component is matched against: the attribute / entry when present, else the `?:` fallback -/
-def compValue (found : Option V) (fb : Option Lit) : Option V :=
+def compValue (ρ : Env) (found : Option V) (fb : Option FExpr) : Option V :=
   match found with
   | some w => some w
-  | none => fb.map Lit.den
+  | none => fbVal ρ fb
 
 /-- `σ` gives the name of a `...t` the value `w` (`...` and `..._` bind nothing) -/
 def restHolds (σ : Env) (t : String) (w : V) : Prop := bindable t = false ∨ σ.lookup t = some w
@@ -205,27 +227,27 @@ def Rebuilds (ρ σ : Env) : Pat → V → Prop
       (∀ t, t ∈ restsElts elts → restHolds σ t (.set (ms.filter (fun m => !decide (m ∈ ws))))) ∧
       (restsElts elts = [] → ∀ m, m ∈ ms → m ∈ ws)
 /-- array items against the items still to be matched; `...` takes any segment -/
-def RItems (ρ σ : Env) : List (Pat × Option Lit) → List V → Prop
+def RItems (ρ σ : Env) : List (Pat × Option FExpr) → List V → Prop
   | [], xs => xs = []
   | (p, fb) :: r, xs =>
     match restName p with
     | some t => ∃ seg tail, xs = seg ++ tail ∧ restHolds σ t (mkArr seg) ∧ RItems ρ σ r tail
     | none =>
       (∃ x tail, xs = x :: tail ∧ Rebuilds ρ σ p x ∧ RItems ρ σ r tail) ∨
-      (∃ d, fb = some d ∧ xs = [] ∧ Rebuilds ρ σ p d.den ∧ RItems ρ σ r [])
+      (∃ w, fbVal ρ fb = some w ∧ xs = [] ∧ Rebuilds ρ σ p w ∧ RItems ρ σ r [])
 /-- every named attribute matches (the attribute itself, or its fallback when it is absent) -/
-def RAttrs (ρ σ : Env) : List (String × Pat × Option Lit) → List (String × V) → Prop
+def RAttrs (ρ σ : Env) : List (String × Pat × Option FExpr) → List (String × V) → Prop
   | [], _ => True
   | (n, p, fb) :: r, kvs =>
     (match restName p with
      | some _ => True
-     | none => ∃ w, compValue (kvs.lookup n) fb = some w ∧ Rebuilds ρ σ p w) ∧ RAttrs ρ σ r kvs
-def REnts (ρ σ : Env) : List (Lit × Pat × Option Lit) → List (V × V) → Prop
+     | none => ∃ w, compValue ρ (kvs.lookup n) fb = some w ∧ Rebuilds ρ σ p w) ∧ RAttrs ρ σ r kvs
+def REnts (ρ σ : Env) : List (Lit × Pat × Option FExpr) → List (V × V) → Prop
   | [], _ => True
   | (k, p, fb) :: r, kvs =>
     (match restName p with
      | some _ => True
-     | none => ∃ w, compValue (kvs.lookup k.den) fb = some w ∧ Rebuilds ρ σ p w) ∧ REnts ρ σ r kvs
+     | none => ∃ w, compValue ρ (kvs.lookup k.den) fb = some w ∧ Rebuilds ρ σ p w) ∧ REnts ρ σ r kvs
 /-- the element patterns other than `...`, in order, against the distinct members chosen for them -/
 def RElts (ρ σ : Env) : List Pat → List V → Prop
   | [], ws => ws = []
@@ -323,7 +345,7 @@ def bind (ρ : Env) : Pat → V → Option Env
       | none => none
     | none => none
 /-- items left to right against the items still to be matched; `...t` takes all but one item per later part -/
-def bindItems (ρ : Env) : Env → List (Pat × Option Lit) → List V → Option Env
+def bindItems (ρ : Env) : Env → List (Pat × Option FExpr) → List V → Option Env
   | acc, [], xs => if xs = [] then some acc else none
   | acc, (p, fb) :: r, xs =>
     match restName p with
@@ -334,27 +356,27 @@ def bindItems (ρ : Env) : Env → List (Pat × Option Lit) → List V → Optio
         | none => none
       else none
     | none =>
-      match xs, fb with
+      match xs, fbVal ρ fb with
       | x :: tail, _ =>
         match bind ρ p x with
         | some s => match matchedUpdate acc s with
           | some acc' => bindItems ρ acc' r tail
           | none => none
         | none => none
-      | [], some d =>
-        match bind ρ p d.den with
+      | [], some w =>
+        match bind ρ p w with
         | some s => match matchedUpdate acc s with
           | some acc' => bindItems ρ acc' r []
           | none => none
         | none => none
       | [], none => none
-def bindAttrs (ρ : Env) : Env → List (String × Pat × Option Lit) → List (String × V) → Option Env
+def bindAttrs (ρ : Env) : Env → List (String × Pat × Option FExpr) → List (String × V) → Option Env
   | acc, [], _ => some acc
   | acc, (n, p, fb) :: r, kvs =>
     match restName p with
     | some _ => bindAttrs ρ acc r kvs
     | none =>
-      match compValue (kvs.lookup n) fb with
+      match compValue ρ (kvs.lookup n) fb with
       | some w =>
         match bind ρ p w with
         | some s => match matchedUpdate acc s with
@@ -362,13 +384,13 @@ def bindAttrs (ρ : Env) : Env → List (String × Pat × Option Lit) → List (
           | none => none
         | none => none
       | none => none
-def bindEnts (ρ : Env) : Env → List (Lit × Pat × Option Lit) → List (V × V) → Option Env
+def bindEnts (ρ : Env) : Env → List (Lit × Pat × Option FExpr) → List (V × V) → Option Env
   | acc, [], _ => some acc
   | acc, (k, p, fb) :: r, kvs =>
     match restName p with
     | some _ => bindEnts ρ acc r kvs
     | none =>
-      match compValue (kvs.lookup k.den) fb with
+      match compValue ρ (kvs.lookup k.den) fb with
       | some w =>
         match bind ρ p w with
         | some s => match matchedUpdate acc s with
@@ -399,7 +421,7 @@ end Spec
 /-! ### deterministic patterns (the domain of `Spec.bind`) -/
 
 /-- no `?:` item after a `...` (it could be either absent or the last item), at most one `...` -/
-def detItemsShape : List (Pat × Option Lit) → Bool
+def detItemsShape : List (Pat × Option FExpr) → Bool
   | [] => true
   | (p, _) :: r => if p.isRest then r.all (fun q => !q.1.isRest && q.2.isNone) else detItemsShape r
 
@@ -418,13 +440,13 @@ def det : Pat → Bool
   | .dict ents => decide ((restsEnts ents).length ≤ 1) && detEnts ents
   | .set elts => decide (countKind .free elts + countKind .rest elts ≤ 1) && !elts.any isAlternatives && detElts elts
   | _ => true
-def detItems : List (Pat × Option Lit) → Bool
+def detItems : List (Pat × Option FExpr) → Bool
   | [] => true
   | (p, _) :: r => det p && detItems r
-def detAttrs : List (String × Pat × Option Lit) → Bool
+def detAttrs : List (String × Pat × Option FExpr) → Bool
   | [] => true
   | (_, p, _) :: r => det p && detAttrs r
-def detEnts : List (Lit × Pat × Option Lit) → Bool
+def detEnts : List (Lit × Pat × Option FExpr) → Bool
   | [] => true
   | (_, p, _) :: r => det p && detEnts r
 def detElts : List Pat → Bool
@@ -456,8 +478,8 @@ def scanMarks : List (Bool × Bool) → Nat → Option Nat
       | none => none
       | some cnt => scanMarks r cnt
 
-def itemMarks (items : List (Pat × Option Lit)) : List (Bool × Bool) := items.map (fun q => (q.1.isRest, q.2.isSome))
-def entMarks (ents : List (Lit × Pat × Option Lit)) : List (Bool × Bool) :=
+def itemMarks (items : List (Pat × Option FExpr)) : List (Bool × Bool) := items.map (fun q => (q.1.isRest, q.2.isSome))
+def entMarks (ents : List (Lit × Pat × Option FExpr)) : List (Bool × Bool) :=
   ents.map (fun q => (q.2.1.isRest, q.2.2.isSome))
 def isIdent : Pat → Bool
   | .name _ => true
@@ -466,15 +488,15 @@ def eltMarks (elts : List Pat) : List (Bool × Bool) := elts.map (fun p => (p.is
 
 /-- ArrayPattern.Bind, main loop: the value handed to item `i` and the new `offset`
 (`xs` = `array.Values()`, `n` = `len(p.items)`) -/
-def arrValue (xs : List V) (n i : Nat) (off : Int) (p : Pat) (fb : Option Lit) : Res (Int × V) :=
+def arrValue (ρ : Env) (xs : List V) (n i : Nat) (off : Int) (p : Pat) (fb : Option FExpr) : Res (Int × V) :=
   if p.isRest then
     let off' : Int := (xs.length : Int) - (n : Int)          -- offset = extraElements[i]
     if off' ≥ 0 then .ok (off', mkArr ((xs.drop i).take (off' + 1).toNat))   -- array.Values()[i : i+offset+1]
     else .ok (off', mkArr [])
   else if (xs.length : Int) ≤ (i : Int) + off then          -- array.Count() <= i+offset
-    match fb with
+    match fbVal ρ fb with                                   -- no fallback, or fallback.Eval(ctx, local) fails
     | none => .err
-    | some d => .ok (off, d.den)
+    | some w => .ok (off, w)
   else
     match xs[((i : Int) + off).toNat]? with                  -- array.Values()[i+offset]
     | some x => .ok (off, x)
@@ -486,7 +508,7 @@ inductive SetStep where
   | ret (r : Res Env)
 
 /-- validTuplePattern -/
-def validTupleLoop : List (String × Pat × Option Lit) → List String → Bool
+def validTupleLoop : List (String × Pat × Option FExpr) → List String → Bool
   | [], _ => true
   | (n, p, _) :: r, seen =>
     if seen.contains n then
@@ -575,10 +597,10 @@ def exprsLoop (ρ : Env) (v : V) : List PExpr → Res Env
     match e.eval ρ with
     | none => .err
     | some w => if v = w then .ok [] else exprsLoop ρ v r
-def bindItems (ρ : Env) (xs : List V) (n : Nat) : Nat → Int → Env → List (Pat × Option Lit) → Res Env
+def bindItems (ρ : Env) (xs : List V) (n : Nat) : Nat → Int → Env → List (Pat × Option FExpr) → Res Env
   | _, _, acc, [] => .ok acc
   | i, off, acc, (p, fb) :: r =>
-    match arrValue xs n i off p fb with
+    match arrValue ρ xs n i off p fb with
     | .ok (off', value) =>
       match bind ρ p value with
       | .ok scope =>
@@ -590,7 +612,7 @@ def bindItems (ρ : Env) (xs : List V) (n : Nat) : Nat → Int → Env → List 
     | .err => .err
     | .panic => .panic
 def bindAttrs (ρ : Env) (kvs : List (String × V)) :
-    Env → List String → Option String → List (String × Pat × Option Lit) → Res (Env × List String × Option String)
+    Env → List String → Option String → List (String × Pat × Option FExpr) → Res (Env × List String × Option String)
   | acc, nms, extra, [] => .ok (acc, nms, extra)
   | acc, nms, extra, (n, p, fb) :: r =>
     match restName p with
@@ -598,7 +620,7 @@ def bindAttrs (ρ : Env) (kvs : List (String × V)) :
     | none =>
       if fb.isNone && nms.isEmpty then .err                  -- shorter than the pattern
       else
-        match compValue (kvs.lookup n) fb with
+        match compValue ρ (kvs.lookup n) fb with
         | none => .err                                       -- couldn't find the attribute
         | some value =>
           match bind ρ p value with
@@ -609,7 +631,7 @@ def bindAttrs (ρ : Env) (kvs : List (String × V)) :
           | .err => .err
           | .panic => .panic
 def bindEnts (ρ : Env) :
-    Env → List (V × V) → List String → List (Lit × Pat × Option Lit) → Res (Env × List (V × V) × List String)
+    Env → List (V × V) → List String → List (Lit × Pat × Option FExpr) → Res (Env × List (V × V) × List String)
   | acc, m, extras, [] => .ok (acc, m, extras)
   | acc, m, extras, (k, p, fb) :: r =>
     match restName p with
@@ -625,10 +647,10 @@ def bindEnts (ρ : Env) :
         | .err => .err
         | .panic => .panic
       | none =>
-        match fb with
+        match fbVal ρ fb with
         | none => .err
-        | some d =>
-          match bind ρ p d.den with
+        | some w =>
+          match bind ρ p w with
           | .ok scope =>
             match matchedUpdate acc scope with
             | some acc' => bindEnts ρ acc' m extras r
@@ -685,13 +707,13 @@ def supported (ρ : Env) : Pat → Bool
       decide ((entKeys ents).Nodup) && supportedEnts ρ ents
   -- at most one name or `...`; nested patterns only as the single element
   | .set elts => (scanMarks (eltMarks elts) 0).isSome && elts.all (eltOK elts.length) && supportedElts ρ elts
-def supportedItems (ρ : Env) : List (Pat × Option Lit) → Bool
+def supportedItems (ρ : Env) : List (Pat × Option FExpr) → Bool
   | [] => true
   | (p, _) :: r => supported ρ p && supportedItems ρ r
-def supportedAttrs (ρ : Env) : List (String × Pat × Option Lit) → Bool
+def supportedAttrs (ρ : Env) : List (String × Pat × Option FExpr) → Bool
   | [] => true
   | (_, p, _) :: r => supported ρ p && supportedAttrs ρ r
-def supportedEnts (ρ : Env) : List (Lit × Pat × Option Lit) → Bool
+def supportedEnts (ρ : Env) : List (Lit × Pat × Option FExpr) → Bool
   | [] => true
   | (_, p, _) :: r => supported ρ p && supportedEnts ρ r
 def supportedElts (ρ : Env) : List Pat → Bool
@@ -709,13 +731,13 @@ def anySub (f : Pat → Bool) : Pat → Bool
   | .dict ents => f (.dict ents) || anySubEnts f ents
   | .set elts => f (.set elts) || anySubElts f elts
   | p => f p
-def anySubItems (f : Pat → Bool) : List (Pat × Option Lit) → Bool
+def anySubItems (f : Pat → Bool) : List (Pat × Option FExpr) → Bool
   | [] => false
   | (p, _) :: r => anySub f p || anySubItems f r
-def anySubAttrs (f : Pat → Bool) : List (String × Pat × Option Lit) → Bool
+def anySubAttrs (f : Pat → Bool) : List (String × Pat × Option FExpr) → Bool
   | [] => false
   | (_, p, _) :: r => anySub f p || anySubAttrs f r
-def anySubEnts (f : Pat → Bool) : List (Lit × Pat × Option Lit) → Bool
+def anySubEnts (f : Pat → Bool) : List (Lit × Pat × Option FExpr) → Bool
   | [] => false
   | (_, p, _) :: r => anySub f p || anySubEnts f r
 def anySubElts (f : Pat → Bool) : List Pat → Bool
@@ -772,6 +794,11 @@ end Spec
 
 /-! ## Source text -/
 
+def FExpr.src : FExpr → String
+  | .lit l => l.src
+  | .var x => x
+  | .add x k => "(" ++ x ++ " + " ++ toString k ++ ")"
+
 def PExpr.src : PExpr → String
   | .lit l => l.src
   | .var x => x
@@ -786,18 +813,18 @@ def Pat.src : Pat → String
   | .tup attrs => "(" ++ ", ".intercalate (srcAttrs attrs) ++ ")"
   | .dict ents => "{" ++ ", ".intercalate (srcEnts ents) ++ "}"
   | .set elts => "{" ++ ", ".intercalate (srcElts elts) ++ "}"
-def srcItems : List (Pat × Option Lit) → List String
+def srcItems : List (Pat × Option FExpr) → List String
   | [] => []
   | (p, none) :: r => p.src :: srcItems r
   | (p, some d) :: r => ("?" ++ p.src ++ ":" ++ d.src) :: srcItems r
-def srcAttrs : List (String × Pat × Option Lit) → List String
+def srcAttrs : List (String × Pat × Option FExpr) → List String
   | [] => []
   | (n, p, fb) :: r =>
     (if p.isRest then p.src
      else match fb with
        | none => Lit.nameSrc n ++ ": " ++ p.src
        | some d => Lit.nameSrc n ++ "?: " ++ p.src ++ ":" ++ d.src) :: srcAttrs r
-def srcEnts : List (Lit × Pat × Option Lit) → List String
+def srcEnts : List (Lit × Pat × Option FExpr) → List String
   | [] => []
   | (k, p, fb) :: r =>
     (if p.isRest then p.src
